@@ -89,7 +89,21 @@ def verify(ctx, repo, registry, prefix, qualnames, harness, expect_covers=(), ma
     n_ok = 0
     t0 = time.time()
     try:
-        for p in explore(lambda P: harness(_mk(repo, P, registry), *funcs), max_paths=max_paths, timeout_ms=timeout_ms):
+        def run_harness(P):
+            from pyvc.interp import PathEnd, PathInfeasible, PyRaise
+
+            try:
+                return harness(_mk(repo, P, registry), *funcs)
+            except (PathEnd, PathInfeasible, PyRaise, Unsupported):
+                raise
+            except Exception:
+                # a harness that stumbles over the state it has just found wrong (e.g. indexes an empty call log after the obligation about that log failed)
+                # must not lose the refutation: the path ends here and keeps its obligations. Without a refuted obligation the exception is the engine's problem.
+                if any(vc.status == "refuted" for vc in P.vcs):
+                    raise PathEnd()
+                raise
+
+        for p in explore(run_harness, max_paths=max_paths, timeout_ms=timeout_ms):
             n_paths += 1
             if p.outcome[0] in ("ok", "cut") or any(vc.status == "refuted" for vc in p.vcs):
                 n_ok += 1
